@@ -46,6 +46,38 @@ def counter_mods(ctx):
     return out
 
 
+def decrement_of(ctx, f, op, mods):
+    """'unit' / 'n' when the modification decreases counter_ (by one / by a caller-chosen amount), None otherwise.
+    A read-modify-write spelled as `counter_.store(counter_.load() - k)` is a decrement only where it cannot lose an
+    update: load and store in one exclusive section of mtx, and every other modification inside mtx as well."""
+    def amount(v):
+        v = unwrap(f, v) if v is not None else None
+        return "unit" if v is not None and v["k"] == "IntegerLiteral" and v.get("v") == 1 else "n"
+    if op["name"] == "operator--":
+        return "unit"
+    if op["name"] in ("fetch_sub", "operator-="):
+        return amount(op.get("value"))
+    if op["op"] == "store" and op.get("value") is not None:
+        v = unwrap(f, op["value"])
+        if v is None or v["k"] != "BinaryOperator" or v.get("op") != "-":
+            return None
+        l, r = f.children(v)
+        loads = [o for o in atomic_ops(f) if o["op"] == "load" and atomic_field_of(f, o) == (CLS, "counter_") and
+                 any(d["id"] == o["st"]["id"] for d in [unwrap(f, l)] + list(f.descendants(l)) if d is not None)]
+        if len(loads) != 1:
+            return None
+        for g, _t, o in mods:
+            la = locks_of(ctx.eng, ctx.fb, g)
+            if g.pos_of(o["st"]) is None or not la.holds(g.pos_of(o["st"]), "this.mtx", "X"):
+                return None
+        la = locks_of(ctx.eng, ctx.fb, f)
+        lp = f.pos_of(loads[0]["st"])
+        if lp is None or not la.holds(lp, "this.mtx", "X"):
+            return None
+        return amount(r)
+    return None
+
+
 def initial(ctx):
     """the latch opens after exactly the number of arrivals it was constructed with - also for 0 (an empty batch:
     waiters never block): the constructor stores its argument unchanged"""
@@ -81,7 +113,7 @@ def stable(ctx, ws):
     ctx.rule(rid, "counter_ only decreases and the waiter's condition is an inequality (an open latch stays open "
              "for every later check, also with more arrivals than the count)", floor=1)
     mods = counter_mods(ctx)
-    ok = bool(mods) and all(op["name"] in ("operator--", "fetch_sub", "operator-=") for _f, _t, op in mods)
+    ok = bool(mods) and all(decrement_of(ctx, f_, op, mods) is not None for f_, _t, op in mods)
     ctx.ob(rid, ok, mods[0][0].loc(mods[0][2]["st"]) if mods else "gmlc/concurrency/Latch.hpp",
            "counter_ is modified by decrements only", "" if ok else
            "modifications: %s" % [(f.loc(op["st"]), op["name"]) for f, _t, op in mods])
@@ -146,8 +178,7 @@ def wake(ctx):
         ctx.ob(rid, ok, f.loc(op["st"]), "the arrival is followed by cv.notify_all() when it may open the latch",
                "" if ok else detail, fn=top.label, inst=f.qname)
         # a decrement by more than one can step over zero: the decision to wake must then be an inequality
-        v = unwrap(f, op["value"]) if op.get("value") is not None else None
-        unit = op["name"] == "operator--" or (v is not None and v["k"] == "IntegerLiteral" and v.get("v") == 1)
+        unit = decrement_of(ctx, f, op, mods) == "unit"
         if not unit:
             eqs = []
             for st in f.stmts.values():
